@@ -248,7 +248,10 @@ fn run_server(f: &[&str]) -> Result<(String, String), String> {
             }
             let upto = ws.get_ref().log.len();
             ws.get_mut().hs_phase = false;
+            #[cfg(tungstenite_verif)]
             tungstenite::protocol::frame::verif_set_mask_seed(seed);
+            #[cfg(not(tungstenite_verif))]
+            let _ = seed;
             run_ops_on(&mut ws, ops, upto, &mut out, false);
             fill(&mut g, &ws.get_ref().snapshot(), 11, true);
         }
@@ -392,7 +395,10 @@ fn run_client(f: &[&str]) -> Result<(String, String), String> {
             }
             let upto = ws.get_ref().log.len();
             ws.get_mut().hs_phase = false;
+            #[cfg(tungstenite_verif)]
             tungstenite::protocol::frame::verif_set_mask_seed(seed);
+            #[cfg(not(tungstenite_verif))]
+            let _ = seed;
             run_ops_on(&mut ws, ops, upto, &mut out, false);
             fill(&mut g, &ws.get_ref().snapshot(), 12, false);
         }
@@ -506,6 +512,32 @@ fn run_try_parse(f: &[&str]) -> (String, String) {
     let buf = unhex(f[3]);
     let t = if f[2] == "req" { oracle_req(&buf) } else { oracle_resp(&buf) };
     (f.join(" "), t)
+}
+
+/// KR id n : build n client requests from a URL and report statistics of their Sec-WebSocket-Key values
+pub fn run_request_key_stats(f: &[&str]) -> String {
+    let n: usize = f[2].parse().unwrap();
+    let mut keys: Vec<Vec<u8>> = vec![];
+    let mut ok16 = 0usize;
+    for _ in 0..n {
+        let req = match "ws://example.com/".into_client_request() {
+            Ok(r) => r,
+            Err(_) => return "error".into(),
+        };
+        let k = req.headers().get("sec-websocket-key").map(|k| k.as_bytes().to_vec()).unwrap_or_default();
+        // standard base64 with padding, 16 bytes -> 24 chars ending in "=="
+        let good = k.len() == 24
+            && k.ends_with(b"==")
+            && k[..22].iter().all(|c| c.is_ascii_alphanumeric() || *c == b'+' || *c == b'/');
+        if good {
+            ok16 += 1;
+        }
+        keys.push(k);
+    }
+    let mut sorted = keys.clone();
+    sorted.sort();
+    sorted.dedup();
+    format!("requests={} distinct={} wellformed16={}", n, sorted.len(), ok16)
 }
 
 pub fn run(kind: &str, f: &[&str]) -> Option<(String, String)> {
